@@ -40,18 +40,49 @@ theorem C01_roundtrip_wa (inflate : Bytes → Option Bytes) (n : Node) (hn : WFN
     decodeFrame Gen.waDict inflate (encodeFrame Gen.waDict n) = .ok n :=
   C01_roundtrip Gen.waDict C01_waDict_WF inflate n hn
 
-/-- Why `StrOK` excludes the reserved words as JID components (known finding, DESIGN §8):
-    the two reserved tokens are unreadable as strings for every dictionary … -/
+/-- The marker tokens 1 and 2 (stream start / end) are unreadable as strings for every dictionary: this is why the encoder
+    must never write a string as one of them (before fix 45f23bb it did, for the two reserved words) … -/
 theorem C01_reserved_token_unreadable (d : Dict) (fuel : Nat) (data : Bytes) :
     readString d (fuel + 1) 1 data = .error .badToken ∧ readString d (fuel + 1) 2 data = .error .badToken := by
   constructor <;> simp [readString]
 
 set_option maxRecDepth 8192 in
-/-- … and the encoder writes exactly those tokens for the two reserved words of the current dictionary. -/
-theorem C01_reserved_words_written_as_tokens :
+/-- … and with the dictionary of the current source the encoder's lookup finds no token for the two reserved words nor for the
+    empty string, although the dictionary lists them at the marker indexes 1, 2 and 0. -/
+theorem C01_reserved_words_not_tokens :
     Gen.waDict.getIndex [120, 109, 108, 115, 116, 114, 101, 97, 109, 115, 116, 97, 114, 116] = some (1, false) ∧
-    Gen.waDict.getIndex [120, 109, 108, 115, 116, 114, 101, 97, 109, 101, 110, 100] = some (2, false) := by
+    Gen.waDict.getIndex [120, 109, 108, 115, 116, 114, 101, 97, 109, 101, 110, 100] = some (2, false) ∧
+    Gen.waDict.lookup [120, 109, 108, 115, 116, 114, 101, 97, 109, 115, 116, 97, 114, 116] = none ∧
+    Gen.waDict.lookup [120, 109, 108, 115, 116, 114, 101, 97, 109, 101, 110, 100] = none ∧
+    Gen.waDict.lookup [] = none := by
   decide +kernel
+
+/-- The string domain is everything: with the dictionary of the current source EVERY string shorter than 2^31 — dictionary
+    words, the reserved words, the empty string, digits, hex, JIDs with any number of '@' at any position — is `StrOK`. -/
+theorem C01_every_string_ok (s : Str) (h : s.length < 2147483648) : StrOK Gen.waDict s :=
+  strOK_of_length Gen.waDict (by intro i sec; rw [C01_reserved_words_not_tokens.2.2.2.2]; simp) s h
+
+/-- Hence a tree is well formed as soon as its sizes fit the format: strings and binary content shorter than 2^31, distinct
+    attribute keys, content or children but not both, list sizes below 2^16. -/
+theorem C01_wf_of_sizes (tag : Str) (attrs : List (Str × Str)) (data : Option Bytes) (ks : List Node)
+    (ht : tag.length < 2147483648) (ha : ∀ kv ∈ attrs, kv.1.length < 2147483648 ∧ kv.2.length < 2147483648)
+    (hk : keysNodup attrs) (hd : ∀ b, data = some b → ks = [] ∧ b.length < 2147483648)
+    (hs : 2 + attrs.length * 2 < 65536) (hl : ks.length < 65536) (hks : WFNodes Gen.waDict ks) :
+    WFNode Gen.waDict (.mk tag attrs data ks) :=
+  WFNode.mk _ _ _ _ (C01_every_string_ok tag ht)
+    ⟨fun kv hkv => ⟨C01_every_string_ok kv.1 (ha kv hkv).1, C01_every_string_ok kv.2 (ha kv hkv).2⟩, hk⟩ hd hs hl hks
+
+/-- The former known finding as a theorem: a stanza addressed to `xmlstreamstart@xmlstreamend`, with an empty attribute value
+    and an attribute ending in '@', survives the codec. -/
+theorem C01_reserved_words_roundtrip (inflate : Bytes → Option Bytes) :
+    let n : Node := .mk [105, 113] [([116, 111], [120, 109, 108, 115, 116, 114, 101, 97, 109, 115, 116, 97, 114, 116, 64, 120, 109, 108, 115, 116, 114, 101, 97, 109, 101, 110, 100]),
+                                    ([120], []), ([121], [97, 64])] none []
+    decodeFrame Gen.waDict inflate (encodeFrame Gen.waDict n) = .ok n := by
+  intro n
+  refine C01_roundtrip_wa inflate n (C01_wf_of_sizes _ _ _ _ (by decide) ?_ (by unfold keysNodup; decide) (by intro b hb; cases hb) (by decide) (by decide) WFNodes.nil)
+  intro kv hkv
+  simp at hkv
+  rcases hkv with rfl | rfl | rfl <;> decide
 
 /- Non-vacuity: concrete trees satisfy `WFNode` — a ≥ 1 MiB payload followed by a sibling, and a
    node with 300 children (dictionary with one usable token `t` = index 3). -/
@@ -60,7 +91,7 @@ def bigPayload : Bytes := List.replicate 1048576 7
 theorem bigPayload_length : bigPayload.length = 1048576 := by
   unfold bigPayload; rw [List.length_replicate]
 theorem exDict_t : StrOK exDict [116] :=
-  StrOK.token [116] 3 false (by unfold AtomOK; decide) (by decide)
+  StrOK.token [116] 3 false (by decide) (by decide)
 theorem exAttrs : AttrsOK exDict [] := by
   refine ⟨?_, ?_⟩
   · intro kv h; cases h
